@@ -82,9 +82,10 @@ func (v *OpenIDConnectRequestValidator) ValidatePrompt(ctx context.Context, req 
 		return errorsx.WithStack(fosite.ErrInvalidRequest.WithHint("Parameter 'prompt' was set to 'none', but contains other values as well which is not allowed."))
 	}
 
+	// max_age=0 is a value of its own (the authentication must not be older than the request); -1 stands for "not sent"
 	maxAge, err := strconv.ParseInt(req.GetRequestForm().Get("max_age"), 10, 64)
 	if err != nil {
-		maxAge = 0
+		maxAge = -1
 	}
 
 	session, ok := req.GetSession().(Session)
@@ -102,7 +103,7 @@ func (v *OpenIDConnectRequestValidator) ValidatePrompt(ctx context.Context, req 
 		return errorsx.WithStack(fosite.ErrServerError.WithDebug("Failed to validate OpenID Connect request because authentication time is in the future."))
 	}
 
-	if maxAge > 0 {
+	if maxAge >= 0 {
 		if claims.AuthTime.IsZero() {
 			return errorsx.WithStack(fosite.ErrServerError.WithDebug("Failed to validate OpenID Connect request because authentication time claim is required when max_age is set."))
 		} else if claims.RequestedAt.IsZero() {
